@@ -289,6 +289,37 @@ pub fn cascade_case(r: &mut Rng) -> String {
     format!("{}{}{}{}", prefix, open.repeat(k), breaker, tail)
 }
 
+/// One very long text section (beyond 32 Ki / 64 Ki / 128 Ki bytes, with line breaks inside and
+/// after those marks) in each text-scanning mode, plain or nested in enclosing constructs that
+/// still owe their closers.
+pub fn long_section_case(r: &mut Rng, k: usize) -> String {
+    let len = [33_000usize, 66_000, 140_000][k % 3];
+    let mut body = String::with_capacity(len + 100);
+    let word = r.pick(&["abc ", "x1 y2 ", "é ", "a=b, ", "q "]);
+    while body.len() < len {
+        body.push_str(word);
+        if body.len() % 71 < word.len() {
+            body.push('\n');
+        }
+    }
+    body.push_str("\n tail ");
+    let (open, close) = match (k / 3) % 9 {
+        0 => ("title \"&a ", "\";"),
+        1 => ("x = \"", "\";"),
+        2 => ("%a(1,%b(2,%c(", ")));"),
+        3 => ("%let v=", ";"),
+        4 => ("%put %str(", ");"),
+        5 => ("/* ", " */ x;"),
+        6 => ("datalines;\n", "\n;\nrun;"),
+        7 => ("title \"pre %a(%b(", "))\";"),
+        _ => ("%macro m(p=", "); %mend;"),
+    };
+    match r.below(4) {
+        0 => format!("{open}{body}"),
+        _ => format!("{open}{body}{close}"),
+    }
+}
+
 /// A source that raises very many diagnostics before a recoverable missing symbol.
 pub fn many_errors_case(r: &mut Rng) -> String {
     let unit = r.pick(&["x = 'zz'x;\n", "%let a b;\n", "%eval 1);\n", "1e;", "0ff ", "%scan(a);\n"]);
